@@ -221,8 +221,11 @@ where
     Some(RefComplex { h_min: -nm, gens, d })
 }
 
-/// textbook Smith normal form (diagonal only): non-zero diagonal entries d1 | d2 | ..., normalised
-pub fn smith_diagonal<R>(a: &Grid<R>, rows: usize, cols: usize) -> Vec<R>
+/// Smith normal form (diagonal only): non-zero diagonal entries d1 | d2 | ..., normalised.
+/// Pivot = a non-zero entry of minimal `size` in the remaining block (units first).  `size` may look at concrete
+/// shadow values: which non-zero entry is used as pivot does not affect the validity of the result, only its cost;
+/// every zero test / division that the result depends on is an ordinary (recorded) scalar operation.
+pub fn smith_diagonal<R>(a: &Grid<R>, rows: usize, cols: usize, size: &dyn Fn(&R) -> num_bigint::BigInt) -> Vec<R>
 where
     R: EucRing,
     for<'x> &'x R: EucRingOps<R>,
@@ -231,74 +234,77 @@ where
     let mut diag: Vec<R> = Vec::new();
     let mut k = 0;
     while k < rows && k < cols {
-        // find a non-zero entry in the remaining block
-        let mut piv = None;
-        'f: for i in k..rows {
+        // non-zero entry of minimal size in the remaining block
+        let mut piv: Option<(usize, usize, num_bigint::BigInt)> = None;
+        for i in k..rows {
             for j in k..cols {
                 if !m[i][j].is_zero() {
-                    piv = Some((i, j));
-                    break 'f;
+                    let sz = size(&m[i][j]);
+                    if piv.as_ref().map(|p| sz < p.2).unwrap_or(true) {
+                        piv = Some((i, j, sz));
+                    }
                 }
             }
         }
-        let Some((pi, pj)) = piv else { break };
+        let Some((pi, pj, _)) = piv else { break };
         m.swap(k, pi);
         for row in m.iter_mut() {
             row.swap(k, pj);
         }
-        loop {
-            let mut dirty = false;
-            for i in k + 1..rows {
-                if m[i][k].is_zero() {
-                    continue;
-                }
-                let q = &m[i][k] / &m[k][k];
-                for j in k..cols {
-                    let s = &q * &m[k][j];
-                    m[i][j] -= s;
-                }
-                if !m[i][k].is_zero() {
-                    m.swap(k, i);
-                    dirty = true;
-                }
+        // reduce column k and row k modulo the pivot; if something non-zero remains, start over with a smaller pivot
+        let mut clean = true;
+        for i in k + 1..rows {
+            if m[i][k].is_zero() {
+                continue;
             }
-            for j in k + 1..cols {
+            let q = &m[i][k] / &m[k][k];
+            for j in k..cols {
                 if m[k][j].is_zero() {
                     continue;
                 }
-                let q = &m[k][j] / &m[k][k];
-                for i in k..rows {
-                    let s = &q * &m[i][k];
-                    m[i][j] -= s;
-                }
-                if !m[k][j].is_zero() {
-                    for row in m.iter_mut() {
-                        row.swap(k, j);
-                    }
-                    dirty = true;
-                }
+                let s = &q * &m[k][j];
+                m[i][j] -= s;
             }
-            if dirty {
+            if !m[i][k].is_zero() {
+                clean = false;
+            }
+        }
+        for j in k + 1..cols {
+            if m[k][j].is_zero() {
                 continue;
             }
-            // row k and column k are clear; enforce divisibility of the remaining block
+            let q = &m[k][j] / &m[k][k];
+            for i in k..rows {
+                if m[i][k].is_zero() {
+                    continue;
+                }
+                let s = &q * &m[i][k];
+                m[i][j] -= s;
+            }
+            if !m[k][j].is_zero() {
+                clean = false;
+            }
+        }
+        if !clean {
+            continue;
+        }
+        // row k and column k are clear; enforce divisibility of the remaining block (skipped for a unit pivot)
+        if !m[k][k].is_unit() {
             let mut bad = None;
             'g: for i in k + 1..rows {
                 for j in k + 1..cols {
-                    if !(&m[i][j] % &m[k][k]).is_zero() {
+                    if !m[i][j].is_zero() && !(&m[i][j] % &m[k][k]).is_zero() {
                         bad = Some(i);
                         break 'g;
                     }
                 }
             }
-            match bad {
-                Some(i) => {
-                    for j in k..cols {
-                        let s = m[i][j].clone();
-                        m[k][j] += s;
-                    }
+            if let Some(i) = bad {
+                for j in k..cols {
+                    let s = m[i][j].clone();
+                    m[k][j] += s;
                 }
-                None => break,
+                continue;
             }
         }
         diag.push(m[k][k].normalized());
@@ -308,13 +314,13 @@ where
 }
 
 /// per homological degree: (h-degree, free rank, non-unit invariant factors of the incoming differential)
-pub fn homology_signature<R>(c: &RefComplex<R>) -> Vec<(isize, usize, Vec<R>)>
+pub fn homology_signature<R>(c: &RefComplex<R>, size: &dyn Fn(&R) -> num_bigint::BigInt) -> Vec<(isize, usize, Vec<R>)>
 where
     R: EucRing,
     for<'x> &'x R: EucRingOps<R>,
 {
     let l = c.gens.len();
-    let diags: Vec<Vec<R>> = (0..l.saturating_sub(1)).map(|i| smith_diagonal(&c.d[i], c.gens[i + 1].len(), c.gens[i].len())).collect();
+    let diags: Vec<Vec<R>> = (0..l.saturating_sub(1)).map(|i| smith_diagonal(&c.d[i], c.gens[i + 1].len(), c.gens[i].len(), size)).collect();
     (0..l)
         .map(|i| {
             let out_rk = if i + 1 < l { diags[i].len() } else { 0 };
@@ -338,4 +344,18 @@ pub fn catalogue() -> Vec<(&'static str, Pd)> {
         // the trefoil with one extra kink (Reidemeister I applied to edge 1)
         ("trefoil+kink", vec![[1, 4, 2, 5], [3, 6, 4, 7], [5, 2, 6, 3], [7, 8, 8, 1]]),
     ]
+}
+
+/// larger diagrams, read (as data) from the repository's link table
+pub fn big_catalogue() -> Vec<(&'static str, Pd)> {
+    let mut v = Vec::new();
+    for name in ["5_1", "5_2", "L4a1", "L5a1", "6_1", "6_2", "6_3"] {
+        let path = format!("/repo/yui-link/resources/links/{}.json", name);
+        if let Ok(txt) = std::fs::read_to_string(&path) {
+            if let Ok(val) = serde_json::from_str::<Vec<[usize; 4]>>(&txt) {
+                v.push((name, val));
+            }
+        }
+    }
+    v
 }
